@@ -1,28 +1,48 @@
-"""python -m vf.replay <replay.json>: re-runs one recorded case with the same monitor."""
-import importlib
+"""python -m vf.replay <replay.json>: re-runs the shard that produced a recorded violation (same
+seed, same generator, same monitors) in a fresh worker process and reports whether a violation
+with the same mechanism record shows up again."""
 import json
+import os
+import subprocess
 import sys
-import warnings
 
-from .worker import Emitter, setup_einx_path, assert_einx_from_repo
+from . import VERIF_DIR, PYTHON, repo_dir
+
+MARK = "@@VF "
 
 
 def main():
     path = sys.argv[1]
     with open(path) as f:
         rec = json.load(f)
-    warnings.simplefilter("ignore")
-    setup_einx_path()
-    assert_einx_from_repo()
-    check = importlib.import_module(f"vf.checks.{rec['property'].lower()}")
-    out = Emitter()
-    if not hasattr(check, "replay"):
-        print("no replay support for", rec["property"])
+    spec = rec.get("shard_spec")
+    pid = rec["property"]
+    if not spec:
+        print("replay file has no shard_spec")
         return 2
-    ok = check.replay(rec, out)
-    out.flush()
-    print("REPLAY", "reproduced" if not ok else "not-reproduced")
-    return 1 if not ok else 0
+    env = dict(os.environ)
+    env["PYTHONHASHSEED"] = str(spec.get("hashseed", 0))
+    env["PYTHONDONTWRITEBYTECODE"] = "1"
+    env["PYTHONPATH"] = VERIF_DIR + os.pathsep + repo_dir()
+    env["EINX_VERIF_REPO"] = repo_dir()
+    p = subprocess.run([PYTHON, "-m", "vf.worker", pid, json.dumps(spec)], cwd=VERIF_DIR, env=env, capture_output=True, text=True)
+    want = json.dumps(rec.get("mech", {}), sort_keys=True)
+    found = None
+    n = 0
+    for line in p.stdout.splitlines():
+        if line.startswith(MARK):
+            ev = json.loads(line[len(MARK):])
+            if ev.get("t") == "violation":
+                n += 1
+                if json.dumps(ev.get("mech", {}), sort_keys=True) == want and found is None:
+                    found = ev
+    print(f"replayed shard {spec.get('shard')} of {pid} (seed {spec.get('seed')}): {n} violation events")
+    if found is not None:
+        print("REPLAY reproduced:", found.get("desc", "")[:500])
+        print(f"VIOLATION property={pid} replay={path}")
+        return 1
+    print("REPLAY not reproduced (no violation with the recorded mechanism in this shard)")
+    return 0
 
 
 if __name__ == "__main__":
